@@ -105,6 +105,10 @@ impl<F> MiniAllocator<F> {
         self.directory.dir_entry(stream_id)
     }
 
+    pub fn dir_entry_generation(&self, stream_id: u32) -> u32 {
+        self.directory.dir_entry_generation(stream_id)
+    }
+
     fn validate(&mut self, validation: Validation) -> io::Result<()> {
         let root_entry = self.directory.root_dir_entry();
         let root_stream_mini_sectors =
